@@ -1,4 +1,5 @@
 -- property: C12
+-- assumes: ciphertexts and N+1 are units modulo N^2 (ValidateCiphertexts accepts exactly the units); modexp is the textbook power with inverse for negative exponents (A-NT)
 -- Paillier ciphertext algebra. The contracts give the VALUES of the ciphertexts the real code computes:
 --   EncWithNonce(m, ρ)  =  (N+1)^m * ρ^N          (mod N²)
 --   ct.Add(ct2)         =  ct * ct2               (mod N²)
